@@ -618,6 +618,8 @@ func (msc *MinerSmartContract) contributeMpk(t *transaction.Transaction,
 		return "", common.NewErrorf("contribute_mpk_failed",
 			"decoding request: %v", err)
 	}
+	// the input may carry an ID of its own: the key is always recorded for the sender
+	mpk.ID = t.ClientID
 
 	if len(mpk.Mpk) != dmn.T {
 		return "", common.NewErrorf("contribute_mpk_failed",
